@@ -6,7 +6,9 @@ Case kinds
   pack          pack_bitlist: emitted shli/ori tree and its value   (Model/PackBits.lean)
   at_tomap / at_frommap / at_compose   AffineTransform              (Model/AffineTransform.lean)
   sp_syntax / cfg_syntax   attribute print -> lex -> parse          (Model/AttrSyntax.lean)
-  ap            Access/Schedule/TemplatePattern construct, canonicalize, inner_dims (Model/AccessCanon.lean)
+  ap            Access/Schedule/TemplatePattern construct (from a matrix or an AffineMap), canonicalize, inner_dims
+  affine_canon_map   canonicalize_map
+  at_eq / at_evalnd / at_postinit   AffineTransform.__eq__, eval (1-D, batch, bad ndim), __post_init__
   opt_table     names of STREAMER_OPT_MAP
 """
 import io
@@ -18,6 +20,23 @@ from framework import Prop
 from xdsl.ir.affine import AffineBinaryOpExpr, AffineBinaryOpKind, AffineConstantExpr, AffineDimExpr, AffineExpr
 
 FUEL = 64
+
+
+def _fixed_ids():
+    """ids of C19 findings listed as fixed in known_findings.json: the model variant of the FIXED code is used for
+    them (D16 -> printCfgFixed/parseCfgFixed, DC19a -> canonicalizeFixed, DC19b -> eqFixed). Flipping the status in
+    known_findings.d/C19.json (+ genindex --findings) after applying the fix diff is the whole switch."""
+    import json
+    import os
+    path = os.path.join(os.path.dirname(os.path.dirname(os.path.dirname(os.path.abspath(__file__)))), "known_findings.json")
+    try:
+        ents = json.load(open(path)).get("findings", [])
+    except OSError:
+        return set()
+    return {e["id"] for e in ents if e.get("property") == "C19" and e.get("status") == "fixed"}
+
+
+FIXED = _fixed_ids()
 KINDS = {"+": AffineBinaryOpKind.Add, "*": AffineBinaryOpKind.Mul, "//": AffineBinaryOpKind.FloorDiv,
          "%": AffineBinaryOpKind.Mod, "ceildiv": AffineBinaryOpKind.CeilDiv}
 TAGS = {v: k for k, v in KINDS.items()}
@@ -70,6 +89,32 @@ def gen_expr(rng: random.Random, d: int, ndims: int, affine_only=False):
     e = gen_expr(rng, d - 1, ndims)
     tag = rng.choice(["//", "%", "%", "//", "ceildiv"])
     return [tag, e, c]
+
+
+def gen_wild(rng: random.Random, d: int, ndims: int):
+    """any operator on any operands: constant sub-expressions that are not folded (3 mod 2), division / modulo by a
+    dimension, raw products of dimensions - shapes a parser can produce and canonicalize_expr must survive"""
+    if d == 0 or rng.random() < 0.25:
+        if rng.random() < 0.5:
+            return ["d", rng.randrange(ndims)]
+        return ["c", rng.choice([-2, -1, 0, 1, 1, 2, 3, 4])]
+    tag = rng.choice(["+", "+", "+", "*", "*", "//", "%", "ceildiv"])
+    return [tag, gen_wild(rng, d - 1, ndims), gen_wild(rng, d - 1, ndims)]
+
+
+def gen_fold(rng: random.Random, ndims: int):
+    """sums that xDSL's smart `+` folds while canonicalize_addition rebuilds them (the F18 / D31 path)"""
+    a = rng.choice([1, 2, 3, -1])
+    x = gen_expr(rng, rng.choice([0, 1, 2]), ndims)
+    y = ["d", rng.randrange(ndims)]
+    return rng.choice([
+        ["+", ["+", ["c", -a], x], ["c", a]],
+        ["+", ["c", a], ["+", x, ["c", -a]]],
+        ["+", ["+", ["c", -a], y], ["+", x, ["c", a]]],
+        ["+", ["+", ["+", ["c", -a], ["+", ["c", a], y]], x], y],
+        ["+", ["+", x, ["c", a]], ["+", y, ["c", -a]]],
+        ["+", ["*", ["+", y, ["c", a]], ["c", 0]], x],
+    ])
 
 
 GRID = [list(p) for p in itertools.product(range(-3, 6), repeat=2)]
@@ -399,11 +444,73 @@ def gen_ap(rng):
     nd = n if rng.random() < 0.96 else max(0, n + rng.choice([-1, 1]))
     t = gen_T(rng, rows=rng.choice([0, 1, 1, 2, 3]), cols=nd)
     t["A"] = [[v if rng.random() < 0.8 else rng.choice([5, 7, 16, -3]) for v in row] for row in t["A"]]
-    return {"kind": "ap", "cls": cls, "bounds": bounds, "t": t, "dim": rng.choice([-1, 0, 1, 1, 2, 2, 3, n, n + 2])}
+    case = {"kind": "ap", "cls": cls, "bounds": bounds, "t": t, "map": None,
+            "dim": rng.choice([-1, 0, 1, 1, 2, 2, 3, n, n + 2])}
+    if rng.random() < 0.2:   # constructed from an AffineMap: AccessPattern.__init__ converts it
+        r = rng.random()
+        if r < 0.85:
+            rs = [gen_lin_expr(rng, rng.choice([0, 1, 2, 3]), nd) for _ in range(rng.choice([0, 1, 2, 3]))]
+        elif r < 0.93:
+            rs = [gen_expr(rng, 2, max(nd, 1))]
+        else:
+            rs = [["+", gen_lin_expr(rng, 1, nd), ["d", nd]]]
+        case["map"] = {"n": nd, "rs": rs}
+        case["t"] = None
+    return case
 
 
-def mk_ap(cls, bounds, t):
+def gen_at_eq(rng):
+    s_ = gen_T(rng)
+    r = rng.random()
+    o = {"nd": s_["nd"], "A": [list(x) for x in s_["A"]], "b": list(s_["b"])}
+    if r < 0.3:
+        pass
+    elif r < 0.5 and o["b"]:
+        i = rng.randrange(len(o["b"]))
+        if o["nd"] and rng.random() < 0.6:
+            o["A"][i][rng.randrange(o["nd"])] += rng.choice([1, -1, 5])
+        else:
+            o["b"][i] += 1
+    elif r < 0.65:      # one row against k equal rows (numpy would broadcast)
+        row = [rng.choice([0, 1, 2, -1]) for _ in range(s_["nd"])]
+        k = rng.choice([0, 2, 3])
+        s_ = {"nd": s_["nd"], "A": [row], "b": [4]}
+        o = {"nd": s_["nd"], "A": [list(row) for _ in range(k)], "b": [4] * k}
+    elif r < 0.8:       # one column against k equal columns
+        rows = rng.choice([1, 2, 3])
+        col = [rng.choice([0, 1, 2]) for _ in range(rows)]
+        k = rng.choice([0, 2, 3])
+        b = [rng.choice([0, 1]) for _ in range(rows)]
+        s_ = {"nd": 1, "A": [[c] for c in col], "b": b}
+        o = {"nd": k, "A": [[c] * k for c in col], "b": list(b)}
+    else:
+        o = gen_T(rng)
+    if rng.random() < 0.5:
+        s_, o = o, s_
+    return {"kind": "at_eq", "s": s_, "o": o}
+
+
+def gen_at_evalnd(rng):
+    t = gen_T(rng)
+    ndim = rng.choice([1, 1, 1, 2, 2, 2, 0, 3])
+    k = t["nd"] if rng.random() < 0.85 else t["nd"] + rng.choice([1, 2])
+    m = 1 if ndim == 1 else rng.choice([0, 1, 2, 4])
+    xs = [[rng.randint(-9, 9) for _ in range(k)] for _ in range(m)]
+    return {"kind": "at_evalnd", "t": t, "ndim": ndim, "xs": xs, "k": k}
+
+
+def gen_at_postinit(rng):
+    r, c = rng.choice([0, 1, 2, 3]), rng.choice([0, 1, 2, 3])
+    a_shape = rng.choice([[r, c], [r, c], [r, c], [r], [r, c, 1], []])
+    b_shape = rng.choice([[r], [r], [r], [r + 1], [r, 1], [], [c]])
+    return {"kind": "at_postinit", "a_shape": a_shape, "b_shape": b_shape}
+
+
+def mk_ap(cls, bounds, t, amap=None):
     import snaxc.ir.dart.access_pattern as apm
+    if amap is not None:
+        from xdsl.ir.affine import AffineMap
+        return getattr(apm, AP_CLS[cls])(bounds, AffineMap(amap["n"], 0, tuple(to_x(r) for r in amap["rs"])))
     return getattr(apm, AP_CLS[cls])(bounds, mk_T(t))
 
 
@@ -462,7 +569,25 @@ class C19(Prop):
         n = 600 if quick else 20000
         for _ in range(n):
             nd = rng.choice([2, 2, 3])
-            yield {"kind": "affine_canon", "e": gen_expr(rng, rng.choice([1, 2, 3, 4, 4]), nd), "ndims": nd}
+            r = rng.random()
+            if r < 0.7:
+                e = gen_expr(rng, rng.choice([1, 2, 3, 4, 4]), nd)
+            elif r < 0.85:
+                e = gen_wild(rng, rng.choice([1, 2, 3, 4]), nd)
+            else:
+                e = gen_fold(rng, nd)
+            yield {"kind": "affine_canon", "e": e, "ndims": nd}
+        for _ in range(120 if quick else 3000):
+            nd = rng.choice([1, 2, 3])
+            rs = [gen_expr(rng, rng.choice([0, 1, 2, 3]), nd) if rng.random() < 0.8 else gen_fold(rng, nd)
+                  for _ in range(rng.choice([0, 1, 2, 3, 4]))]
+            yield {"kind": "affine_canon_map", "rs": rs, "ndims": nd}
+        for _ in range(200 if quick else 5000):
+            yield gen_at_eq(rng)
+        for _ in range(200 if quick else 5000):
+            yield gen_at_evalnd(rng)
+        for _ in range(60 if quick else 600):
+            yield gen_at_postinit(rng)
         if not quick:  # exhaustive: all patterns of rank <= 3 over bounds {0,1,2,3} x strides {0,1,2,3,6} (8420 patterns)
             for n_ in range(4):
                 for ub in itertools.product([0, 1, 2, 3], repeat=n_):
@@ -518,6 +643,33 @@ class C19(Prop):
             e = to_x(case["e"])
             r = canonicalize_expr(e)
             return {"canon": of_x(r)}
+        if k == "affine_canon_map":
+            from snaxc.util.canonicalize_affine import canonicalize_map
+            from xdsl.ir.affine import AffineMap
+            m = canonicalize_map(AffineMap(case["ndims"], 0, tuple(to_x(r) for r in case["rs"])))
+            assert m.num_dims == case["ndims"] and m.num_symbols == 0
+            return {"results": [of_x(r) for r in m.results]}
+        if k == "at_eq":
+            return {"ok": bool(mk_T(case["s"]) == mk_T(case["o"]))}
+        if k == "at_evalnd":
+            import numpy as np
+            t = mk_T(case["t"])
+            nd_, xs, kk = case["ndim"], case["xs"], case["k"]
+            if nd_ == 1:
+                x = np.array(xs[0], dtype=np.int_)
+            elif nd_ == 2:
+                x = np.array(xs, dtype=np.int_).reshape(len(xs), kk)
+            elif nd_ == 0:
+                x = np.array(5)
+            else:
+                x = np.array(xs, dtype=np.int_).reshape(1, len(xs), kk)
+            y = t.eval(x)
+            return {"ok": [[int(v) for v in y]] if nd_ == 1 else [[int(v) for v in row] for row in y]}
+        if k == "at_postinit":
+            import numpy as np
+            from snaxc.ir.dart.affine_transform import AffineTransform
+            AffineTransform(np.zeros(case["a_shape"], dtype=np.int_), np.zeros(case["b_shape"], dtype=np.int_))
+            return {"ok": None}
         if k == "sp_canon":
             from snaxc.dialects.snax_stream import StridePattern
             sp = StridePattern(case["ub"], case["ts"], case["ss"])  # VerifyException on unequal lengths
@@ -563,7 +715,7 @@ class C19(Prop):
             return {"toks": toks, "parsed": parsed}
         if k == "ap":
             import snaxc.ir.dart.access_pattern as apm
-            p = mk_ap(case["cls"], case["bounds"], case["t"])   # ValueError / TypeError of the constructors
+            p = mk_ap(case["cls"], case["bounds"], case["t"], case.get("map"))   # ValueError / TypeError / IndexError
             canon = ap_json(p.canonicalize())
             try:
                 inner = ap_json(p.inner_dims(case["dim"]))
@@ -576,7 +728,7 @@ class C19(Prop):
                 coll_same = [ap_json(q) for q in c.canonicalize()] == [canon, canon]
                 if "raised" not in inner:
                     coll_same = coll_same and [ap_json(q) for q in c.inner_dims(case["dim"])] == [inner, inner]
-            return {"canon": canon, "inner": inner, "coll_same": coll_same}
+            return {"built": ap_json(p), "canon": canon, "inner": inner, "coll_same": coll_same}
         if k == "opt_table":
             from snaxc.accelerators.streamers.extensions import STREAMER_OPT_MAP
             return {"names": sorted(STREAMER_OPT_MAP.keys()),
@@ -589,6 +741,14 @@ class C19(Prop):
         k = case["kind"]
         if k == "affine_canon":
             return [{"fn": "c19.canon", "args": {"e": case["e"], "fuel": FUEL}}]
+        if k == "affine_canon_map":
+            return [{"fn": "c19.canon_map", "args": {"rs": case["rs"], "fuel": FUEL}}]
+        if k == "at_eq":
+            return [{"fn": "c19.at_eq", "args": {"s": case["s"], "o": case["o"], "fixed": "DC19b" in FIXED}}]
+        if k == "at_evalnd":
+            return [{"fn": "c19.at_evalnd", "args": {"t": case["t"], "ndim": case["ndim"], "xs": case["xs"], "k": case["k"]}}]
+        if k == "at_postinit":
+            return [{"fn": "c19.at_postinit", "args": {"a_shape": case["a_shape"], "b_shape": case["b_shape"]}}]
         if k == "sp_canon":
             return [{"fn": "c19.sp_canon", "args": {"ub": case["ub"], "ts": case["ts"], "ss": case["ss"]}}]
         if k == "pack":
@@ -605,10 +765,13 @@ class C19(Prop):
             return [{"fn": "c19.sp_syntax", "args": {"ub": case["ub"], "ts": case["ts"], "ss": case["ss"],
                                                      "mut": case["mut"]}}]
         if k == "cfg_syntax":
-            return [{"fn": "c19.cfg_syntax", "args": {"cfg": case["cfg"], "mut": case["mut"]}}]
+            return [{"fn": "c19.cfg_syntax", "args": {"cfg": case["cfg"], "mut": case["mut"], "fixed": "D16" in FIXED}}]
         if k == "ap":
-            return [{"fn": "c19.ap", "args": {"cls": case["cls"], "bounds": case["bounds"], "t": case["t"],
-                                              "dim": case["dim"]}}]
+            args = {"cls": case["cls"], "bounds": case["bounds"], "dim": case["dim"], "map": case.get("map"),
+                    "fixed": "DC19a" in FIXED}
+            if case.get("map") is None:
+                args["t"] = case["t"]
+            return [{"fn": "c19.ap", "args": args}]
         if k == "opt_table":
             return [{"fn": "c19.opt_table", "args": {}}]
         return []
@@ -623,6 +786,10 @@ class C19(Prop):
             if a is None:
                 return {"out_of_fuel": True}
             return {"canon": a}
+        if k == "affine_canon_map":
+            return {"out_of_fuel": True} if a is None else {"results": a}
+        if k in ("at_eq", "at_evalnd", "at_postinit"):
+            return a
         if k == "sp_canon":
             if not a["verify"]:
                 return {"raised": "VerifyException"}
@@ -655,7 +822,7 @@ class C19(Prop):
         if k == "ap":
             if "raised" in a:
                 return a
-            return {"canon": a["canon"], "inner": a["inner"], "coll_same": True}
+            return {"built": a["built"], "canon": a["canon"], "inner": a["inner"], "coll_same": True}
         if k == "opt_table":
             return {"names": sorted(a), "classes_distinct": len(set(a)) == len(a), "name_is_key": True}
 
@@ -691,6 +858,52 @@ class C19(Prop):
             r2 = canonicalize_expr(r)
             if r2 != r:
                 bad(f"canonicalisation not idempotent: {r} -> {r2}")
+        elif k == "affine_canon_map":
+            if "raised" in impl_out:
+                return [{"what": f"canonicalize_map raised {impl_out['raised']}: {impl_out.get('msg')}", "finding": None}]
+            from snaxc.util.canonicalize_affine import canonicalize_expr
+            nd = case["ndims"]
+            if len(impl_out["results"]) != len(case["rs"]):
+                bad("canonicalize_map changed the number of results")
+                return out
+            pts = [(p + [0] * nd)[:nd] for p in GRID] + [[7, -5, 11][:nd], [100, 37, -64][:nd]]
+            for e_j, r_j in zip(case["rs"], impl_out["results"]):
+                e, r = to_x(e_j), to_x(r_j)
+                for p in pts:
+                    v = safe_eval(e, p)
+                    if v is not None and safe_eval(r, p) != v:
+                        bad(f"result {r} evaluates to {safe_eval(r, p)} instead of {v} at {p}")
+                        break
+                if canonicalize_expr(r) != r:
+                    bad(f"canonicalize_map not idempotent on {r}")
+        elif k == "at_eq":
+            s_, o = case["s"], case["o"]
+            same_shape = s_["nd"] == o["nd"] and len(s_["b"]) == len(o["b"])
+            want = s_ == o
+            if "raised" in impl_out:
+                bad(f"AffineTransform.__eq__ raised {impl_out['raised']} on shapes ({len(s_['b'])},{s_['nd']}) vs "
+                    f"({len(o['b'])},{o['nd']})", None if same_shape else "DC19b")
+            elif impl_out["ok"] != want:
+                bad(f"AffineTransform.__eq__ answers {impl_out['ok']} for transforms of shapes ({len(s_['b'])},{s_['nd']}) "
+                    f"and ({len(o['b'])},{o['nd']})" + (" that differ" if not want else " that are equal"),
+                    "DC19b" if (not same_shape and impl_out["ok"]) else None)
+        elif k == "at_evalnd":
+            t, nd_, kk = case["t"], case["ndim"], case["k"]
+            must_raise = nd_ not in (1, 2) or kk != t["nd"]
+            if "raised" in impl_out:
+                if not must_raise:
+                    bad(f"eval raised {impl_out['raised']}: {impl_out.get('msg')}")
+            elif must_raise:
+                bad(f"eval accepted an input of ndim {nd_} with {kk} columns for a transform with {t['nd']} dims")
+            else:
+                want = [py_affine(t, x) for x in case["xs"]]
+                if impl_out["ok"] != want:
+                    bad(f"eval of ndim-{nd_} input gives {impl_out['ok']} instead of {want}")
+        elif k == "at_postinit":
+            a_s, b_s = case["a_shape"], case["b_shape"]
+            must_raise = not (len(a_s) == 2 and len(b_s) == 1 and a_s[0] == b_s[0])
+            if ("raised" in impl_out) != must_raise:
+                bad(f"AffineTransform(A{a_s}, b{b_s}) " + ("was accepted" if must_raise else f"raised {impl_out.get('raised')}"))
         elif k == "sp_canon":
             if "raised" in impl_out:
                 if len(case["ub"]) == len(case["ts"]):
@@ -813,16 +1026,32 @@ class C19(Prop):
                 else:
                     bad(f"streamer configuration parses back as {p}")
         elif k == "ap":
-            bounds, t = case["bounds"], case["t"]
+            bounds, t, amap = case["bounds"], case["t"], case.get("map")
             n = len(bounds)
-            must_raise = n != t["nd"] or (case["cls"] == "schedule" and any(b is None or b <= 0 for b in bounds))
+            nd_in = amap["n"] if amap else t["nd"]
+            must_raise = n != nd_in or (case["cls"] == "schedule" and any(b is None or b <= 0 for b in bounds))
+            if amap:
+                must_raise = must_raise or any(has_divmod(r) or max_dim(r) >= amap["n"] for r in amap["rs"])
             if "raised" in impl_out:
                 if not must_raise:
                     bad(f"{AP_CLS[case['cls']]} constructor raised {impl_out['raised']}: {impl_out.get('msg')}")
                 return out
             if must_raise:
-                bad(f"{AP_CLS[case['cls']]} accepted bounds {bounds} for a pattern with {t['nd']} dims")
+                bad(f"{AP_CLS[case['cls']]} accepted bounds {bounds} for a pattern with {nd_in} dims / map {amap}")
                 return out
+            if amap:   # the pattern built from the map must evaluate like the map
+                from xdsl.ir.affine import AffineMap
+                t = impl_out["built"]["t"]
+                if impl_out["built"]["bounds"] != bounds or t["nd"] != amap["n"]:
+                    bad("pattern constructed from an AffineMap has other bounds / dims")
+                if all(mul_const_side(r) for r in amap["rs"]):
+                    m = AffineMap(amap["n"], 0, tuple(to_x(r) for r in amap["rs"]))
+                    for x in points(5, amap["n"]):
+                        if py_affine(t, x) != list(m.eval(x, [])):
+                            bad(f"pattern constructed from {amap['rs']} evaluates to {py_affine(t, x)} at {x}")
+                            break
+            elif impl_out["built"] != {"cls": case["cls"], "bounds": bounds, "t": t}:
+                bad("constructor changed bounds or pattern")
             if not impl_out["coll_same"]:
                 bad("Schedule/Template.canonicalize or inner_dims differs from the per-pattern result")
             c = impl_out["canon"]
@@ -888,6 +1117,14 @@ class C19(Prop):
             return False
         if k == "affine_canon":
             return impl_out.get("canon") != case["e"]
+        if k == "affine_canon_map":
+            return impl_out.get("results") != case["rs"]
+        if k == "at_eq":
+            return bool(case["s"]["b"]) and case["s"] != case["o"]
+        if k == "at_evalnd":
+            return "ok" in impl_out and bool(case["t"]["b"]) and len(case["xs"]) > 0
+        if k == "at_postinit":
+            return True
         if k == "sp_canon":
             return impl_out["canon"]["ub"] != case["ub"] and len(impl_out["addrs"]) > 1
         if k == "pack":
@@ -899,7 +1136,7 @@ class C19(Prop):
         if k == "at_compose":
             return "ok" in impl_out and bool(case["s"]["b"]) and case["o"]["nd"] > 0 and case["s"]["nd"] > 0
         if k == "ap":
-            return bool(case["t"]["b"]) and impl_out["canon"]["bounds"] != case["bounds"]
+            return bool(impl_out["built"]["t"]["b"]) and impl_out["canon"]["bounds"] != case["bounds"]
         if k == "sp_syntax":
             return case["mut"] is None and bool(case["ub"])
         if k == "cfg_syntax":
@@ -950,7 +1187,7 @@ class C19(Prop):
                 if j[0] not in "dc":
                     yield dict(case, rs=[j[1]])
                     yield dict(case, rs=[j[2]])
-        elif k == "ap" and len(case["bounds"]) == case["t"]["nd"]:
+        elif k == "ap" and case.get("map") is None and len(case["bounds"]) == case["t"]["nd"]:
             t, bs = case["t"], case["bounds"]
             for i in range(len(bs)):
                 yield dict(case, bounds=bs[:i] + bs[i + 1:],
